@@ -605,11 +605,78 @@ fn join_case(case: &JoinCase, obs: &mut Obs) -> PropResult {
 	Ok(())
 }
 
+
+/// Dimension counts around every place where a counter of 8 or 16 bits would wrap: `[`^d + element, given to
+/// the three descriptor parsers (bare, as parameter and as return type) and to the name predicates;
+/// for accepted array class names `dimension()` must be d.
+fn dimension_boundaries(ctx: &mut Ctx) {
+	let sub = "dimension_boundaries";
+	let by_value = |v: &serde_json::Value, obs: &mut Obs| -> PropResult { dimension_case(v["dims"].as_u64().unwrap_or(0) as usize, v["element"].as_str().unwrap_or(""), obs) };
+	if ctx.in_replay() {
+		if let Some(v) = ctx.replay_case(sub) {
+			let mut obs = ctx.new_obs();
+			if let Err(e) = crate::engine::no_panic(|| by_value(&v, &mut obs)).and_then(|x| x) {
+				ctx.push_violation(sub, e);
+			}
+		}
+		return;
+	}
+	ctx.run_saved_values(sub, &by_value);
+	let mut dims: Vec<usize> = (0..=8).collect();
+	for base in [256usize, 512, 768, 1024, 4096, 32768, 65536, 65536 + 256, 131072, 1 << 20] {
+		dims.extend(base - 3..=base + 3);
+	}
+	dims.extend([100, 127, 128, 129, 200, 65536 + 255, 65536 * 2 + 255]);
+	dims.sort();
+	dims.dedup();
+	let elements = ["I", "J", "Z", "La;", "Ljava/lang/Object;", "L[I;", "V", "", "a", "L;", "La", "II"];
+	ctx.run_enum(sub, |rec| {
+		for &d in &dims {
+			for e in elements {
+				let mut obs = rec.obs();
+				let r = crate::engine::no_panic(|| dimension_case(d, e, &mut obs)).and_then(|x| x);
+				rec.case(|| json!({"dims": d, "element": e}), fnv64(format!("{d}:{e}").as_bytes()), obs, r);
+				if rec.failed() {
+					return; // dimensions ascend: the first failure is a smallest one
+				}
+			}
+		}
+	});
+}
+
+fn dimension_case(d: usize, element: &str, obs: &mut Obs) -> PropResult {
+	let s = format!("{}{}", "[".repeat(d), element);
+	check_field(&s, obs)?;
+	check_return(&s, obs)?;
+	check_method(&format!("({s})V"), obs)?;
+	check_method(&format!("(I{s}J)V"), obs)?;
+	check_method(&format!("(){s}"), obs)?;
+	check_names(&s, obs)?;
+	// TryFrom agrees with the predicates, and the dimension of an accepted array class name is d
+	let js = JavaStr::from_str(&s);
+	let arr = ArrClassName::try_from(JavaString::from(s.as_str()));
+	if arr.is_ok() != ArrClassName::is_valid(js) {
+		return Err(format!("ArrClassName::try_from and is_valid disagree on {d} dimensions of {element:?}"));
+	}
+	if ClassName::try_from(JavaString::from(s.as_str())).is_ok() != ClassName::is_valid(js) {
+		return Err(format!("ClassName::try_from and is_valid disagree on {d} dimensions of {element:?}"));
+	}
+	if let Ok(a) = arr {
+		if a.dimension() as usize != d {
+			return Err(format!("array class name of {d} dimensions of {element:?} reports dimension() = {}", a.dimension()));
+		}
+		obs.label("valid array class name");
+	}
+	obs.label(if d > 255 { "dims>255" } else if d == 255 { "dims=255" } else { "dims<255" });
+	obs.nontrivial_if(d >= 1);
+	Ok(())
+}
+
 pub fn run(ctx: &mut Ctx) {
 	let quick = ctx.tier == crate::engine::Tier::Quick;
 	let dl = if quick { 6 } else { 7 };
 	ctx.rule = format!(
-		"exhaustive: every string of length <= {dl} over the 16 symbols BCDFIJSZVL;[()/a is given to the field, method and return descriptor parsers (accept iff member of JVMS 4.3, parsed structure == reference structure, write(parse(s)) == s); every string of length <= 5 over . ; [ / < > $ a b and every string of length <= 4 over the descriptor alphabet is given to the seven name predicates and the inner-class split/join; random: generated type structures (up to 255 dimensions, long and non-ASCII names) printed and re-parsed, long members and their single-edit neighbours. Non-trivial = length >= 2 and a grammar member or one deletion away from one (names: length >= 2); distinct by string hash"
+		"exhaustive: every string of length <= {dl} over the 16 symbols BCDFIJSZVL;[()/a is given to the field, method and return descriptor parsers (accept iff member of JVMS 4.3, parsed structure == reference structure, write(parse(s)) == s); every string of length <= 5 over . ; [ / < > $ a b and every string of length <= 4 over the descriptor alphabet is given to the seven name predicates and the inner-class split/join; dimension counts 0..8 and within 3 of every multiple of 256 / 65536 that an 8- or 16-bit counter would wrap at, for 12 element forms, to parsers and predicates (dimension() of an accepted array class name == d); random: generated type structures (up to 255 dimensions, long and non-ASCII names) printed and re-parsed, long members and their single-edit neighbours. Non-trivial = length >= 2 and a grammar member or one deletion away from one (names: length >= 2); distinct by string hash"
 	);
 	ctx.assume("class names inside L...; follow JVMS 4.2.1 (non-empty `/`-separated unqualified names)");
 	ctx.exhaustive = true;
@@ -618,6 +685,7 @@ pub fn run(ctx: &mut Ctx) {
 	enumerate(ctx, "return_descriptors_exhaustive", DESC_ALPHABET, dl, check_return, near_member);
 	enumerate(ctx, "names_exhaustive", NAME_ALPHABET, 5, check_names, |_| true);
 	enumerate(ctx, "names_over_descriptor_alphabet", DESC_ALPHABET, 4, check_names, |_| true);
+	dimension_boundaries(ctx);
 	let long = || {
 		(proptest::collection::vec(rtype_strategy(), 0..4), proptest::option::of(rtype_strategy()), 0u8..3, edit_strategy()).prop_map(|(params, ret, form, edit)| {
 			let mut s = String::new();
